@@ -182,6 +182,11 @@ pub fn drive_sizes(ctx: &mut Ctx, rng: &mut Rng, thorough: bool) {
                 let sends: Vec<(usize, Vec<u8>)> = (0..64).map(|i| (i, valid_request(rng, p, 1024, None))).collect();
                 run_round(ctx, &mut rig, sends, vec![], false);
             }
+            // a backlog of many batches handled in one wake-up (smallest requests: the response must still fit)
+            for p in [Proto::Google, Proto::Ietf] {
+                let sends: Vec<(usize, Vec<u8>)> = (0..1000).map(|i| (i % 70, valid_request(rng, p, 1024, None))).collect();
+                run_round(ctx, &mut rig, sends, vec![], false);
+            }
         }
         let n = if thorough { 2500 } else { 500 };
         for k in 0..n {
